@@ -91,6 +91,7 @@ func init() {
 	atomTolerant["(*regexp.Regexp).FindAllString"] = true
 	atomTolerant["(*regexp.Regexp).String"] = true
 	atomTolerant["strconv.Itoa"] = true
+	atomTolerant["(*strings.Builder).WriteString"] = true
 	extraIntrinsics = append(extraIntrinsics, func(e *Engine) {
 		// regexp validity. Contract: regexp.Compile(p) succeeds iff reok(p), an uninterpreted predicate of the pattern's
 		// identity ("^"+p+"$" is the separate predicate P_reok__5e_24(p): validating p does not validate its anchored
